@@ -31,6 +31,7 @@ use super::super::*;
 use super::super::div;
 //@@ FN integer/div_dc/small_quotient.rs drop_asserts=0
 //@@ FN integer/div_dc/same_len.rs
+//@@ FN integer/div_dc/div_rem_in_place.rs
 }
 }
 } // verus!
